@@ -176,9 +176,10 @@ MANIFEST_TEXT = {
         technique="Lean 4 proof (invariants over all op histories) + differential correspondence"),
     "C19": dict(
         text="Lean theorems for an ARBITRARY parity-line function, any block, size and redundancy: C19_structure (systematic, count, each parity fragment = XOR of exactly the selected data fragments), C19_systematic, "
-             "C19_linear (encode(a xor b) = encode a xor encode b), C19_matrix (the code's line = TS004 pseudo-code in bit-operation form, both is_power2 branches), C19_errors, C19_total. "
+             "C19_linear (encode(a xor b) = encode a xor encode b), C19_matrix (the code's line = TS004 pseudo-code in bit-operation form, both is_power2 branches), C19_errors, C19_total, "
+             "C19_fragment_selection + C19_recovery + C19_recovery_block (for ANY subset of fragments that arrives: a GF(2) combination of the received selection vectors equal to the unit vector of data fragment j, applied to the received fragments, gives data fragment j; one per fragment - i.e. full rank - gives the block back), C19_matrix_line_length. "
              "Every Go output is re-derived from the specification side.",
-        note="Trusted: Lean kernel; TS004 transcription (LW/Spec/Frag.lean); fuel for the PRBS draw loop. The recovery clause (decoder from any full-rank subset) follows from linearity; its certificate-checking theorem is not yet proved. One genuine defect repaired (size <= 0).",
+        note="Trusted: Lean kernel; TS004 transcription (LW/Spec/Frag.lean); fuel for the PRBS draw loop. The recovery clause is proved in certificate form (the combinations are what Gaussian elimination computes; that elimination finds them whenever the rank is full is standard linear algebra, not proved here). One genuine defect repaired (size <= 0).",
         technique="Lean 4 proof (structural induction, linearity) + differential correspondence"),
     "C20": dict(
         text="Lean theorems: C20_gps_roundtrip / _strict_mono / _inverse for EVERY instant or duration and ANY sorted leap table, C20_generated_table_ok + C20_gps_offset (regenerated table = published IERS list, offset = published count for every instant), "
